@@ -10,7 +10,8 @@ import numpy as np
 from .. import models
 from ..core import RunResult, adigest, mix
 from ..driver import pristine_library_state
-from .hist_common import SAME, TAU, call_value, quiet
+from .hist_common import SAME, TAU, quiet
+from .hist_common import call_value as _call_value
 
 NAME = "B8"
 PROPERTY = "C08"
@@ -18,11 +19,16 @@ RUNS = {"quick": 200, "thorough": 5000}
 RUN_WALL_CAP = 180.0
 REQUIRED_PROBES = {"quick": ["rectangular", "degenerate_row", "reps_gt_1", "quantum_bracketed", "npa1_compared", "method_repeated", "tol_given", "quantum_gap", "two_objects_same_shape", "disconnected_question_graph"], "thorough": ["rectangular", "degenerate_row", "reps_gt_1", "reps_3", "quantum_bracketed", "npa1_compared", "method_repeated", "tol_given", "quantum_gap"]}
 COMPONENTS = {"real": ["toqito.nonlocal_games.XORGame (constructor, quantum_value, classical_value, nonsignaling_value, to_nonlocal_game)", "NonlocalGame.classical_value / nonsignaling_value / commuting_measurement_value_upper_bound(1)", "toqito.helper.npa_constraints", "cvxpy + SCS/Clarabel"], "stub": []}
-RULE = ("one run = one XORGame object, sometimes with a second object of the same shape used in between (1..5 x 1..5 questions, rectangular, zero rows/columns, uniform / skewed distributions, disconnected question graphs with a satisfiable and a frustrated component, predicate dtype int/bool/float/int8, reps 1..3, tol given or defaulted) and 3..6 "
+RULE = ("one run = one XORGame object, sometimes with a second object of the same shape used in between (1..5 x 1..5 questions, rectangular, zero rows/columns, uniform / skewed distributions, disconnected question graphs with a satisfiable and a frustrated component, predicate dtype int/bool/float/int8/uint8/uint64, containers ndarray / np.matrix / Fortran order / strided view, the caller editing a converted game it was handed, reps 1..3, tol given or defaulted) and 3..6 "
         "value-method calls in seeded order with repetition; reference = rigorous bracket [bias of explicit unit vectors, dual-feasible certificate] from own SDPs, +/-1 enumeration, LP; "
         "non-trivial = >=2 distinct methods, one repeated, and the game is not won classically with certainty; distinct = distinct digest of (game, operation sequence)")
 SHRINK_ORDER = ["config", "game", "ops"]
 KG = 1.7823
+
+
+def call_value(fn, res, label):
+    return _call_value(fn, res, label, prop="C08")
+
 
 
 def _mods():
@@ -85,8 +91,8 @@ def draw_game(st, like=None):
         prob[np.ix_(r_sat, c_sat)] *= w / sat_mass
         prob[np.ix_(r_fr, c_fr)] *= (1 - w) / fr_mass
     reps = st.weighted([(1, 6), (2, 3), (3, 2)])
-    dt = st.weighted([("int64", 4), ("bool", 1), ("float64", 1), ("int8", 1)])
-    pred = pred.astype({"int64": np.int64, "bool": bool, "float64": float, "int8": np.int8}[dt])
+    dt = st.weighted([("int64", 4), ("bool", 1), ("float64", 1), ("int8", 1), ("uint8", 1), ("uint64", 1)])
+    pred = pred.astype({"int64": np.int64, "bool": bool, "float64": float, "int8": np.int8, "uint8": np.uint8, "uint64": np.uint64}[dt])
     return prob, pred, reps, {"shape": [q0, q1], "prob_kind": qk, "reps": reps, "pred_dtype": dt}
 
 
@@ -117,8 +123,26 @@ def run(cs, tier, run_index):
     tol_value = [1e-9, 1e-6, 1e-3, 0.05][cfg.draw(4)] if tol_given else None
     meta["tol"] = tol_value
 
+    # the same numbers in another container: np.matrix (2-D, `*` is the matrix product), Fortran order, or a
+    # strided view into a larger array.  The game is the same game.
+    forms = [cfg.weighted([("array", 5), ("matrix", 2), ("fortran", 1), ("view", 1)]) for _ in range(2)]
+    meta["containers"] = forms
+    if "matrix" in forms:
+        res.probe("np_matrix_input")
+
+    def contain(a, form):
+        if form == "matrix":
+            return np.matrix(a)
+        if form == "fortran":
+            return np.asfortranarray(a)
+        if form == "view":
+            big = np.zeros((2 * a.shape[0], 2 * a.shape[1]), dtype=a.dtype)
+            big[::2, ::2] = a
+            return big[::2, ::2]
+        return a.copy()
+
     def build():
-        p, f = prob.copy(), pred.copy()
+        p, f = contain(prob, forms[0]), contain(pred, forms[1])
         return (X.XORGame(p, f, reps, tol_value) if tol_given else X.XORGame(p, f, reps)), (p, f)
 
     try:
@@ -175,7 +199,7 @@ def run(cs, tier, run_index):
     n_ops = ops_s.int_range(3, 6)
     names = []
     for _ in range(n_ops):
-        nm = ops_s.weighted([("quantum", 4), ("classical", 3), ("npa1", 3), ("nonsignaling", 2)])
+        nm = ops_s.weighted([("quantum", 4), ("classical", 3), ("npa1", 3), ("nonsignaling", 2), ("convert_and_edit", 2)])
         if nm == "nonsignaling" and (q0 * q1) ** reps * 4**reps > 450:
             nm = "quantum"
         if nm == "npa1" and 1 + q0**reps * (2**reps - 1) + q1**reps * (2**reps - 1) > 40:
@@ -185,6 +209,36 @@ def run(cs, tier, run_index):
         names.append(nm)
     pristine, vals = {}, {}
     for k, nm in enumerate(names):
+        if nm == "convert_and_edit":
+            # the caller converts the game, checks the result, and then uses the returned object as its own:
+            # scribbling on it must not reach the XOR game (or any later conversion)
+            try:
+                conv = game.to_nonlocal_game()
+                cp, cv = np.asarray(conv.prob_mat), np.asarray(conv.pred_mat)
+            except Exception as e:
+                res.violate("C08.val.same_as_game", why="to_nonlocal_game raised", exc=type(e).__name__, msg=str(e)[:200], position=k, history=names[:k + 1], **meta)
+                break
+            res.checks_sim += 1
+            res.probe("converted_game_edited_by_caller")
+            if reps == 1:
+                res.checks_workload += 1
+                if cv.shape != gv.shape or not np.allclose(cv, gv) or not np.allclose(cp, gp):
+                    res.violate("C08.val.same_as_game", why="converted game is not V(a,b|x,y) = [f(x,y) = a xor b] with the same distribution", position=k, history=names[:k + 1], **meta)
+            # only the predicate tensor is edited: it is built by the conversion, whereas the distribution may
+            # legitimately be the XOR game's own array (NonlocalGame keeps what it is given by reference)
+            how = ops_s.draw(3)
+            try:
+                if how == 0:
+                    conv.pred_mat[-1, ...] = 0
+                elif how == 1:
+                    conv.pred_mat[...] = 1 - np.asarray(conv.pred_mat)
+                else:
+                    conv.pred_mat[0, ...] = 1
+            except (ValueError, TypeError):
+                pass  # read-only result: nothing to scribble on
+            del conv
+            res.log.add("op", k, nm, how)
+            continue
         if interloper is not None and ops_s.draw(2):
             call_value(op_fn(interloper, nm), res, nm + "(other object)")
         out = call_value(op_fn(game, nm), res, nm)
